@@ -24,13 +24,16 @@ LEVEL = 'model_checking'
 ASSUMPTIONS = [
     'reference layout = checks/layouts.py (written from the CAMx user guide, '
     'no library code)',
-    'only the gridded average/emissions (uamiv) format is encoded; '
-    'lateral_boundary, landuse, the meteorological formats, bpch and ARL are '
-    'not (structured-dtype whole-file mappings / writers that fail under '
-    'numpy 2.5)',
-    'writer side: record-marker arithmetic symbolic in cells per layer and '
-    'species count; the byte-level decode of names/values is done only in '
-    'replay (real file, independent struct-based walker)',
+    'writers: only the gridded average/emissions (uamiv) writer (the met '
+    'writers fail under numpy 2.5 before writing anything); its data loop is '
+    'executed on a sink that records the byte count and integer value of '
+    'every tofile call, with an unbounded cell count and the source dtype '
+    'enumerated (f4, f8; i4, i2 thorough); the byte-level decode of '
+    'names/values is done only in replay (real file, independent walker)',
+    'readers: uamiv memmap (size arithmetic, all four file kinds) and record '
+    'reader; one3d/temperature/height_pressure memmap readers on the full '
+    'reference file (checks/metmap.py); lateral_boundary, landuse, wind, '
+    'cloud_rain, bpch and ARL are not encoded',
 ]
 
 MANIFEST = {
@@ -46,7 +49,9 @@ MANIFEST = {
             'the fixed header records have the prescribed sizes; for the '
             'full-size file the memmap reader derives exactly T steps at the '
             'layout offsets (T unbounded) and the record reader seeks to the '
-            'layout\'s record starts (nspec, nz <= 2, T <= 3).',
+            'layout\'s record starts (nspec, nz <= 2, T <= 3). The met memmap '
+            'readers expose exactly the encoded steps, values and time flags '
+            'of small reference files (nz<=2, T<=3).',
     'note': 'Trusted: z3, reference layout, numpy dtype item sizes. Other '
             'binary formats are not encoded.',
 }
